@@ -269,16 +269,45 @@ def _loop_verdicts(f, mask_var: str, pass_var: str):
         if l.env.get(mask_var) != MASK or l.env.get(pass_var) != PASS:
             other += 1
         verdict = None
+        conds, cond_nodes = list(l.conds), list(l.cond_nodes)
+        expanded = None
         if len(mask_vals) == 1:
             V = mask_vals[0]
+            truthV = sp.Eq(sp.Function("truth")(V), sp.true, evaluate=False)
             if V in (sp.true, sp.false):
                 verdict = bool(V)
-            elif isinstance(V, sp.logic.boolalg.Boolean):
+            elif isinstance(V, (sp.core.relational.Relational, sp.And, sp.Or, sp.Not)):
                 if any(same_rel(x, V) for x in lits):
                     verdict = True
                 elif any(same_rel(x, negate(V)) for x in lits):
                     verdict = False
-        rows.append(dict(leaf=l, verdict=verdict, n_mask=len(mask_vals), n_pass=n_pass, pass_ok=pass_ok, other=other, exit=l.exit, lits=lits))
+            elif any(same_rel(x, truthV) for x in lits):
+                verdict = True
+            elif any(same_rel(x, negate(truthV)) for x in lits):
+                verdict = False
+            # a verdict computed by a nested function of this routine: its own table says when it is True / False
+            g = f.module and getattr(getattr(V, "func", None), "__name__", "")
+            nested = [h for h in ast.walk(f.node) if isinstance(h, ast.FunctionDef) and h is not f.node and h.name == g] if g else []
+            if verdict is not None and len(nested) == 1 and list(V.args) == [REC] and len(nested[0].args.args) == 1:
+                h = nested[0]
+                genv = dict(env)
+                genv[h.args.args[0].arg] = REC
+                gl = PathTable(None, f.module, env=genv, unroll=True, search_loops=True).leaves([b for b in h.body if not (isinstance(b, ast.Expr) and isinstance(b.value, ast.Constant))])
+                expanded = []
+                for x in gl:
+                    if x.exit == "raise":
+                        continue
+                    if x.exit != "return" or x.value not in (sp.true, sp.false):
+                        expanded = None
+                        break
+                    if bool(x.value) == verdict:
+                        expanded.append(x)
+        base = dict(leaf=l, verdict=verdict, n_mask=len(mask_vals), n_pass=n_pass, pass_ok=pass_ok, other=other, exit=l.exit, lits=lits)
+        if expanded:
+            for x in expanded:
+                rows.append(dict(base, conds=conds + list(x.conds), cond_nodes=cond_nodes + list(x.cond_nodes)))
+        else:
+            rows.append(dict(base, conds=conds, cond_nodes=cond_nodes))
     return loop, REC, rows
 
 
@@ -592,13 +621,13 @@ def _r5_r6_sta(ck: Checker, prog: Program):
     conds_all = []
     inner = None
     for r in rej:
-        l = r["leaf"]
-        tag_at = [i for i, (c_, _t) in enumerate(l.conds) if "breaks(" in str(c_)]
+        rconds, rnodes = r["conds"], r["cond_nodes"]
+        tag_at = [i for i, (c_, _t) in enumerate(rconds) if "breaks(" in str(c_)]
         if not tag_at:
             raise AnalysisError(f"{fq}: a rejecting pass does not leave a search over the components")
-        inner = l.cond_nodes[tag_at[-1]]
+        inner = rnodes[tag_at[-1]]
         parts = []
-        for (c_, t_), node in list(zip(l.conds, l.cond_nodes))[tag_at[-1] + 1:]:
+        for (c_, t_), node in list(zip(rconds, rnodes))[tag_at[-1] + 1:]:
             if isinstance(node, ast.If) and any(isinstance(x, ast.Raise) for x in ast.walk(node)):
                 continue        # refusal of a window shorter than the averaging length
             parts.append(c_ if t_ else sp.Not(c_))
